@@ -564,6 +564,9 @@ def forparam_cases():
                         # limit and step given as variables of the counter's type that the body reassigns:
                         # the loop runs over the values fixed at entry
                         cases.append((sig, a, b, s, 'varbound'))
+                        # the loop is left from its body and its FOR is executed again with another step: the second
+                        # FOR replaces the first (its NEXT works with the new step and limit)
+                        cases.append((sig, a, b, s, 'reenter'))
     return cases
 
 
@@ -580,6 +583,17 @@ def forparam_lines(case, variant):
         stmts = [('let', lim, ('c', b)), ('let', stp, ('c', sv)), f, ('printv', v),
                  ('let', lim, ('c', a)), ('let', stp, ('-', ('c', 0), ('v', stp))),
                  ('next', [1], [v] if named else None), ('print', 'e')]
+    elif shape == 'reenter':
+        stp = 'S' + sig
+        sv = 1 if s is None else s
+        f = ('for', 1, v, ('c', a), ('c', b), ('v', stp))
+        lines = [(10, [('let', stp, ('c', sv)), ('let', 'R', ('c', 0))]),
+                 (20, [f]),
+                 (30, [('printv', v)]),
+                 (40, [('if', ('rel', '=', ('v', 'R'), ('c', 0)), None), ('let', 'R', ('c', 1)),
+                       ('let', stp, ('c', 2 * sv)), ('goto', 20)]),
+                 (50, [('next', [1], [v] if named else None), ('print', 'e')])]
+        return lines
     elif shape == 'single':
         stmts = [f, ('printv', v), ('next', [1], [v] if named else None), ('print', 'e')]
     elif shape == 'inner':
